@@ -1,4 +1,5 @@
-\* thorough: as DelayLine_q.cfg with samples over {-1, 0, 1} and d = 1..4.
+\* thorough (the same constants checks/c13.py uses): every input of N = 8 samples over {-1, 0, 1}, every partition into process
+\* calls of 1..8 frames, d = 1..4.  See DelayLine_q.cfg for the invariants.  Measured: see evidence/C13.json (model_checking_runs).
 SPECIFICATION Spec
 CONSTANTS
   N = 8
